@@ -1,0 +1,12 @@
+//go:build verif
+
+package fs
+
+// VerifYield, when non-nil, is called at the verification yield points of the lock protocol.
+var VerifYield func(point string)
+
+func verifYield(point string) {
+	if f := VerifYield; f != nil {
+		f(point)
+	}
+}
